@@ -37,11 +37,14 @@ class Check:
         self.notes = []
         self.known = load_known()
         self._vkeys = set()
-        self.scratch = os.path.join(SCRATCH, f'{pid}-{tier}')
+        self.scratch = os.path.join(SCRATCH, f'{pid}-{tier}-{os.getpid()}')
+        # seeded-change runs (tools/run_seed.sh) keep their evidence and replay files out of /verif's own
+        self.evdir = os.environ.get('VERIF_EVIDENCE_DIR') or os.path.join(ROOT, 'evidence')
+        self.rpdir = os.environ.get('VERIF_REPLAY_DIR') or os.path.join(ROOT, 'replays')
         shutil.rmtree(self.scratch, ignore_errors=True)
         os.makedirs(self.scratch, exist_ok=True)
-        os.makedirs(os.path.join(ROOT, 'replays', pid), exist_ok=True)
-        os.makedirs(os.path.join(ROOT, 'evidence'), exist_ok=True)
+        os.makedirs(os.path.join(self.rpdir, pid), exist_ok=True)
+        os.makedirs(self.evdir, exist_ok=True)
 
     @property
     def quick(self):
@@ -91,7 +94,7 @@ class Check:
             self.known_hits.append(key)
             return
         self.violations += 1
-        path = os.path.join(ROOT, 'replays', self.pid, f'{key[:80]}.json')
+        path = os.path.join(self.rpdir, self.pid, f'{key[:80]}.json')
         with open(path, 'w') as f:
             json.dump(dict(property=self.pid, key=key, what=what, payload=payload), f, indent=1, default=_js)
         print(f'DETAIL property={self.pid} key={key} :: {what}')
@@ -108,7 +111,7 @@ class Check:
                   coverage=cov, assumptions=self.assumptions, wall_s=round(time.time() - self.t0, 2),
                   violations=self.violations, known_findings_hit=self.known_hits, notes=self.notes,
                   machinery_failure=machinery_failure)
-        with open(os.path.join(ROOT, 'evidence', f'{self.pid}.json'), 'w') as f:
+        with open(os.path.join(self.evdir, f'{self.pid}.json'), 'w') as f:
             json.dump(ev, f, indent=1, default=_js)
         shutil.rmtree(self.scratch, ignore_errors=True)
         if machinery_failure:
